@@ -163,6 +163,15 @@ structure WOpts where
   /-- `resource.InterceptAfter(g)`: `g old merged` is what the callback leaves in the value about to be saved -/
   after : Option (Mode → Mode → Mode) := none
 
+/-- The write options `DeleteMode` hands through to `Collection.Delete` besides allow-missing (the servers never
+pass them): `Collection.Delete` looks at them only for an item that exists, the caller's check first, then the
+expected value. -/
+structure DOpts where
+  /-- `resource.WithExpectedValue(m)` -/
+  expected : Option Mode := none
+  /-- `resource.WithExpectedCheck(fn)`: `fn current` = the error it returns, if any -/
+  check : Option (Mode → Option Code) := none
+
 /-- `resource.WithMoreUpdatePaths("id")` (added by `updateMode` after the caller's options): a nil mask
 stays nil (it writes every field anyway), any other mask also names `id`. -/
 def maskWithId : Option Mask → Option Mask
@@ -246,7 +255,7 @@ inductive Op where
   | create (m : Mode) (cands : List String)
   | add (m : Mode)
   | update (m : Mode) (mask : Option Mask) (w : WOpts)
-  | delete (id : String) (allowMissing : Bool) (expected : Option Mode)
+  | delete (id : String) (allowMissing : Bool) (d : DOpts)
   | setActive (m : Mode)
   | changeActive (id : String) (now : Nat)
   | clear (now : Nat)                                  -- ChangeToNormalMode
@@ -257,6 +266,7 @@ inductive Op where
   | sDelete (id : String) (allowMissing : Bool)
   | sChangeActive (id : String) (now : Nat)            -- UpdateActiveMode
   | sClear (now : Nat)                                 -- ClearActiveMode
+  | sCreateNil                                         -- the CreateMode RPC with a request that carries no mode
 
 /-- does the update mask mention an unknown field? -/
 def maskInvalid : Option Mask → Bool
@@ -297,13 +307,23 @@ def updateMode (s : St) (m : Mode) (mask : Option Mask) (w : WOpts) : St × Res 
           let new := written Mode.blank m mask w
           ({ s with modes := insertAt m.id new s.modes }, .ok (some new))
 
-def deleteMode (s : St) (id : String) (allowMissing : Bool) (expected : Option Mode) : St × Res :=
+/-- `WithExpectedCheck` on a delete: the error the caller's check returns for the stored value -/
+def dcheckFails (d : DOpts) (current : Mode) : Option Code :=
+  match d.check with
+  | none => none
+  | some f => f current
+
+def deleteMode (s : St) (id : String) (allowMissing : Bool) (d : DOpts) : St × Res :=
   if id = s.active.id then (s, .err .failedPrecondition)                     -- ErrDeleteActiveMode
   else match find s id with
+    -- modes.Delete(id, opts...): a missing item is settled before any precondition is looked at
     | none => if allowMissing then (s, .ok none) else (s, .err .notFound)
     | some old =>
-      if expectedFails expected old then (s, .err .failedPrecondition)       -- ExpectedValuePreconditionFailed
-      else ({ s with modes := eraseMode id s.modes }, .ok none)
+      match dcheckFails d old with
+      | some c => (s, .err c)                                                -- WithExpectedCheck (first)
+      | none =>
+        if expectedFails d.expected old then (s, .err .failedPrecondition)   -- ExpectedValuePreconditionFailed
+        else ({ s with modes := eraseMode id s.modes }, .ok none)
 
 def setActive (s : St) (m : Mode) : St × Res :=
   match find s m.id with
@@ -333,17 +353,22 @@ def step (s : St) : Op → St × Res
   | .sUpdate m mask => if m.id = "" then (s, .err .invalidArgument) else updateMode s m mask {}
   | .sDelete id am =>
     if id = "" then (s, .err .invalidArgument)
-    else match deleteMode s id am none with
+    else match deleteMode s id am {} with
       | (s', .ok _) => (s', .ok none)
       | r => r
   | .sChangeActive id now => if id = "" then (s, .err .invalidArgument) else changeActive s id now
   | .sClear now => changeToNormal s now
+  | .sCreateNil => (s, .err .invalidArgument)                                         -- ca6ca35: "mode is required"
 
 def run (s : St) : List Op → St
   | [] => s
   | op :: ops => run (step s op).1 ops
 
 /-! ### The code before the two fixes (kept to state what the repaired defects were) -/
+
+/-- the CreateMode RPC without a mode before ca6ca35: `request.GetMode().GetId()` is nil safe, the id check passed,
+and `Model.CreateMode(nil)` dereferenced nil -/
+def sCreateNilUnfixed (s : St) : St × Res := (s, .panic)
 
 def updateModeUnfixed (s : St) (m : Mode) (mask : Option Mask) : St × Res :=
   if maskInvalid mask then (s, .err .invalidArgument)
